@@ -67,6 +67,17 @@ namespace random_utils {
   inline uint32_t verif_random_bit() {
     return verif_source != nullptr ? (verif_source->bit() ? 1u : 0u) : static_cast<uint32_t>(random_bit());
   }
+
+  inline double verif_next_double() {
+    return verif_source != nullptr ? verif_source->unit() : next_double(rand);
+  }
+
+  // uniform integer in [0, n)
+  inline uint64_t verif_next_below(uint64_t n) {
+    if (verif_source != nullptr) return verif_source->below(n);
+    std::uniform_int_distribution<uint64_t> dist(0, n - 1);
+    return dist(rand);
+  }
 #endif
 }
 
